@@ -559,6 +559,16 @@ def rule_r8(ctx) -> List[R.Inst]:
     q = TL + ".from_dict"
     fn = M.fn(q)
     file, line = fn_loc(M, q)
+    # ... and keeps the rows it is given: one row per record, in order
+    ROWOPS = ("drop_duplicates", "dropna", "sort_values", "sort_index", "sample", "head", "tail", "query", "nlargest", "nsmallest",
+              "groupby", "unique", "iloc", "loc")
+    rowops = [n for n in ast.walk(fn.node) if isinstance(n, ast.Call) and isinstance(n.func, ast.Attribute) and n.func.attr in ROWOPS[:-2]]
+    if rowops:
+        insts.append(R.viol("C16.R8", "TimedList.from_dict.rows", file, rowops[0].lineno,
+                            f"from_dict passes the records through '{rowops[0].func.attr}': a list built from a dict has one row per record, in "
+                            f"the given order (two equal records are two objects)", construct=f"from_dict: {unparse(rowops[0])[:80]}"))
+    else:
+        insts.append(R.ok("C16.R8", "TimedList.from_dict.rows", file, line, idiom="no row-dropping / reordering operation"))
     rejects = any(isinstance(n, ast.If) and any(isinstance(x, ast.Raise) for x in n.body) and "columns" in unparse(n.test)
                   for n in ast.walk(fn.node))
     fills = False
